@@ -81,7 +81,8 @@ var c10Scripts = map[string]map[string][]string{
 	"B": {"s1": {"a", "b", "a"}, "s2": {"c", "a"}},
 }
 
-const c10Watchdog = 15 * time.Second
+// 15 s; schedules in which the client goes quiet need more than the runner's 20 s response timeout (VERIF_WATCHDOG_S)
+var c10Watchdog = time.Duration(verifutil.EnvInt("VERIF_WATCHDOG_S", 15)) * time.Second
 
 type c10Result struct {
 	Events   []c10Event `json:"events"`
@@ -261,6 +262,18 @@ func c10RunWith(script string, hist [][]any, slowCb bool, osc *c10OSClient) c10R
 				if r == "aborted" {
 					return exit(false)
 				}
+			case "ST":
+				// goes quiet for good: writes nothing, reads nothing, stays - until told to stop
+				close(op.started)
+				log.put(c10Event{E: "StallCall"})
+				r := "aborted"
+				select {
+				case <-ctx.Done():
+				case <-time.After(c10Watchdog):
+					r = "timeout"
+				}
+				log.put(c10Event{E: "WaitAbortRet", R: r})
+				return exit(false)
 			case "X":
 				close(op.started)
 				return exit(op.fail)
@@ -361,7 +374,7 @@ func c10RunWith(script string, hist [][]any, slowCb bool, osc *c10OSClient) c10R
 			if !waitStarted(cmd.started, fmt.Sprintf("send #%d of %s", sent[s], s)) {
 				hung = true
 			}
-		case "R", "W", "X", "CI", "CO", "B":
+		case "R", "W", "X", "CI", "CO", "B", "ST":
 			if !clientOpen {
 				continue
 			}
@@ -467,7 +480,7 @@ func TestVerifC10Run(t *testing.T) {
 	script := verifutil.Env("VERIF_SCRIPT", "B")
 	var hangs int64
 	results := make([]c10Result, len(lines))
-	verifutil.ParallelFor(len(lines), runtime.NumCPU()*2, func(i int) {
+	verifutil.ParallelFor(len(lines), verifutil.EnvInt("VERIF_PAR", runtime.NumCPU()*2), func(i int) {
 		var s c10Scn
 		if err := json.Unmarshal(lines[i], &s); err != nil {
 			results[i] = c10Result{Hang: "harness: " + err.Error()}
